@@ -261,10 +261,10 @@ Fixpoint repeat_app {A} (n : nat) (l : list A) : list A :=
    guard: repetitions > math.MaxInt32 / len) *)
 Definition repeat_too_large (len : nat) (n : Z) : bool :=
   negb (len =? 0)%nat && (2147483647 / Z.of_nat len <? n)%Z.
-(* vm.go at HEAD has no such guard: make([]value, 0, len*count) panics in
-   makeslice, or the process runs out of memory (false); with the proposed
-   C17-vm-repeat-count.diff it returns ErrBadRepetition (true) *)
-Definition repeat_guarded : bool := false.
+(* vm.go since 208ef1c returns ErrBadRepetition there (true); before, there was
+   no guard: make([]value, 0, len*count) panicked in makeslice or the process
+   ran out of memory (false: arr_repeat false, see the _before_fix lemma) *)
+Definition repeat_guarded : bool := true.
 Definition arr_repeat (guarded : bool) (r : float) (l : list value) : pres :=
   match go_int_exact r with
   | None => PErr EBadRepetition
@@ -272,7 +272,7 @@ Definition arr_repeat (guarded : bool) (r : float) (l : list value) : pres :=
       if (n <? 0)%Z then PErr EBadRepetition
       else if repeat_too_large (List.length l) n then (if guarded then PErr EBadRepetition else PCrash CHost)
       else POk (VArr (match l with [] => [] | _ :: _ => repeat_app (Z.to_nat n) l end))
-           (* the empty array: HEAD loops count times over nothing (it hangs for 2^53); the value is [] *)
+           (* the empty array: no rounds at all since 208ef1c (before: count rounds over nothing, a hang for 2^53) *)
   end.
 
 (* pairs (k1 v1 … kn vn), bottom-up order, from the popped values (top first) *)
